@@ -872,6 +872,9 @@ func eqnilV(t types.Type, x, y value) value {
 	return equalsV(t, x, y)
 }
 
+// unsafeOrigins: the static type of every pointer that was converted to unsafe.Pointer.
+var unsafeOrigins = map[unsafe.Pointer]types.Type{}
+
 func unop(instr *ssa.UnOp, x value) value {
 	if s, ok := x.(*sym); ok {
 		switch instr.Op {
@@ -1378,7 +1381,11 @@ func conv(t_dst, t_src types.Type, x value) value {
 		case *types.Basic:
 			// *value to unsafe.Pointer?
 			if ut_dst.Kind() == types.UnsafePointer {
-				return unsafe.Pointer(x.(*value))
+				p := x.(*value)
+				if p != nil {
+					unsafeOrigins[unsafe.Pointer(p)] = t_src
+				}
+				return unsafe.Pointer(p)
 			}
 		}
 
@@ -1448,10 +1455,19 @@ func conv(t_dst, t_src types.Type, x value) value {
 			// simulate the memory layout of a real
 			// compiled implementation.
 			//
-			// To at least preserve type-safety, we'll
-			// just return the zero value of the
-			// destination type.
-			return zero(t_dst)
+			// symgo: the round trip *T -> unsafe.Pointer -> *T (atomic.Pointer[T], sync.Map, sync.Pool ...)
+			// is exact: the pointer is the same cell and the cell holds a T. The type the pointer had when
+			// it became an unsafe.Pointer is remembered; a conversion back to that very type returns the
+			// cell, a conversion to any other pointer type is unsupported (upstream returned the zero value
+			// of the destination type here, i.e. silently a nil pointer).
+			up := x.(unsafe.Pointer)
+			if up == nil {
+				return zero(t_dst)
+			}
+			if orig, ok := unsafeOrigins[up]; ok && types.Identical(orig, t_dst) {
+				return (*value)(up)
+			}
+			panic(unsupported("conversion of an unsafe.Pointer to " + t_dst.String() + " (not the pointer type it was made from)"))
 		}
 
 		// Conversions between complex numeric types?
